@@ -118,6 +118,29 @@ let () =
             Printf.printf "%s run%d outcome=%s events=[%s] table=[%s]\n" id i (show_outcome o)
               (String.concat " " (Stdlib.List.map show_event es))
               (String.concat " " (Stdlib.List.map show_rev (read_revisions t)))) res
+        | "reuse" ->
+          (* C09 stage reuse: calls on ONE executor value (M-REUSE): cfg + directory, then the calls *)
+          let r = parse_run () in
+          let nops = next_int () in
+          let faults () = match next () with "-" -> [] | s -> Stdlib.List.init (String.length s) (fun i -> s.[i] = '1') in
+          let ops = Stdlib.List.init nops (fun _ -> ()) |> Stdlib.List.map (fun () ->
+            match next () with
+            | "N" -> let n = next_int () in let f = faults () in OpN (nat_of_int n, f)
+            | "T" -> let v = bytes_of_string (unhex (next ())) in let f = faults () in OpTo (v, f)
+            | "P" -> OpPending
+            | k -> failwith ("op " ^ k)) in
+          let e = { e_cfg = r.run_cfg; e_dir = r.run_dir } in
+          let show_tbl t = String.concat " " (Stdlib.List.map show_rev (read_revisions t)) in
+          Stdlib.List.iteri (fun i res ->
+            match res with
+            | ResRun (o, t, es) ->
+              Printf.printf "%s op%d outcome=%s events=[%s] table=[%s]\n" id i
+                (match o with TNotFound -> "notfound" | TRun ro -> show_outcome ro)
+                (String.concat " " (Stdlib.List.map show_event es)) (show_tbl t)
+            | ResPending (p, t) ->
+              Printf.printf "%s op%d pending=%s table=[%s]\n" id i
+                (match p with PFiles fs -> "files:" ^ show_files fs | p -> show_outcome (RPend p)) (show_tbl t))
+            (session heq hs (execute_to heq hs) e ops [])
         | "pending" ->
           (* one Pending decision: cfg + files, then a revision table *)
           let r = parse_run () in
